@@ -19,6 +19,7 @@ import RosuModel.Model.FiniteWire
 import RosuModel.Model.ClockRate
 import RosuModel.Model.PerfCalcWire
 import RosuModel.Model.OsuSkillWire
+import RosuModel.Model.FullPerfWire
 import RosuModel.Model.SliderEventsWire
 import RosuModel.Model.ManiaPatternWire
 import RosuModel.Model.ConvOsuWire
@@ -86,6 +87,7 @@ def handle (line : String) : String :=
   | ["TSKILL", sum0, hw, flags, n, recs] => SkillWire.handleTSKILL sum0 hw flags n recs
   | ["CSKILL", rate, cs, take, objs] => SkillWire.handleCSKILL rate cs take objs
   | "OSK" :: args => PerfCalc.handleOSK args
+  | "FP" :: args => FullPerf.handleFP args
   | ["SLEV", st, sd, v, td, tot, sp] => SliderEvents.handleSLEV st sd v td tot sp
   | ["OSLD", v, sm, tr, sl] => SliderEvents.handleOSLD v sm tr sl
   | ["JUICE", v, sm, tr, objs] => SliderEvents.handleJUICE v sm tr objs
